@@ -24,7 +24,7 @@ MUTANT_CHECKS = {
     "revert-fix-distribute-order": ["C03"], "revert-fix-distribute-same-labware-log": ["C11"], "revert-fix-evo-selection": ["C10", "C13"],
     "revert-fix-gwl-suffix": ["C17"], "revert-fix-lvh-count": ["C11"], "revert-fix-nan-composition": ["C05"],
     "revert-fix-negative-transfer-volume": ["C07"], "revert-fix-partition-volume": ["C06"], "revert-fix-randomize-shapes": ["C15"],
-    "revert-fix-rdist-validation": ["C09", "C03"], "revert-fix-tube-id": ["C09"],
+    "revert-fix-rdist-validation": ["C09", "C03"], "revert-fix-tube-id": ["C09"], "revert-fix-single-row-default-names": ["C05", "C01"],
 }
 
 
@@ -54,7 +54,7 @@ def evaluate(name, patch, demo, checks):
             res["demo_with_change"] = rc
             res["demo_message"] = out.strip().splitlines()[-1][:300] if out.strip() else ""
         for c in checks:
-            env2 = dict(os.environ, VERIF_REPO=S, VERIF_NOEVIDENCE="1")
+            env2 = dict(os.environ, VERIF_REPO=S, VERIF_NOEVIDENCE="1", VERIF_JOBS=os.environ.get("MATRIX_JOBS", "4"))
             rc, out = sh(f"./check {c} quick", cwd=HERE, env=env2)
             clauses = sorted(set(re.findall(r"clause=(\S+)", out)))
             res["checks"][c] = {"exit": rc, "violation_lines": out.count("VIOLATION property="), "clauses": clauses[:8], "harness_error": "HARNESS-ERROR" in out}
@@ -64,15 +64,21 @@ def evaluate(name, patch, demo, checks):
 
 
 def main(prefixes):
+    from concurrent.futures import ThreadPoolExecutor
+
     rows = []
     names = sorted(os.listdir(os.path.join(HERE, "seeded")))
+    todo = []
     for n in names:
         d = os.path.join(HERE, "seeded", n)
         if not os.path.isdir(d) or (prefixes and not any(n.startswith(p) for p in prefixes)):
             continue
         pid = n.split("-")[0]
-        checks = [pid] + ALSO.get(n, [])
-        r = evaluate(n, os.path.join(d, "patch.diff"), os.path.join(d, "demo.py"), checks)
+        todo.append((n, d, pid, [pid] + ALSO.get(n, [])))
+    pool = ThreadPoolExecutor(max_workers=int(os.environ.get("MATRIX_PAR", "4")))
+    futs = [(n, d, pid, checks, pool.submit(evaluate, n, os.path.join(d, "patch.diff"), os.path.join(d, "demo.py"), checks)) for n, d, pid, checks in todo]
+    for n, d, pid, checks, fut in futs:
+        r = fut.result()
         notes = open(os.path.join(d, "notes.md")).read() if os.path.exists(os.path.join(d, "notes.md")) else ""
         meta = {
             "id": n,
@@ -92,11 +98,14 @@ def main(prefixes):
             json.dump(meta, f, indent=1)
         rows.append((n, r))
         print(n, r.get("tests_with_change"), "demo", r.get("demo_without_change"), "->", r.get("demo_with_change"), {c: (v["exit"], v["clauses"][:2]) for c, v in r["checks"].items()}, flush=True)
+    mfuts = []
     for n in sorted(os.listdir(os.path.join(HERE, "mutants"))):
         if not n.endswith(".diff") or (prefixes and not any(n.startswith(p) for p in prefixes)):
             continue
         key = n[:-5]
-        r = evaluate(key, os.path.join(HERE, "mutants", n), None, MUTANT_CHECKS.get(key, []))
+        mfuts.append((key, pool.submit(evaluate, key, os.path.join(HERE, "mutants", n), None, MUTANT_CHECKS.get(key, []))))
+    for key, fut in mfuts:
+        r = fut.result()
         rows.append((key, r))
         print(key, r.get("patch"), r.get("tests_with_change"), {c: (v["exit"], v["clauses"][:2]) for c, v in r["checks"].items()}, flush=True)
     if not prefixes:
